@@ -629,3 +629,118 @@ class C09(NlpCheck):
                         self.violation("after %s the value of parameter %s%d is %s, last assigned %s" % (ops, gk, i, got.tolist(), want.tolist()),
                                        {"desc": d, "ops": ops}, {"kind": "set_value-history", "grid": gk})
                         return
+
+
+def var_index_of(b, expr):
+    """index in opti.x of the single decision variable a scalar expression is (a multiple of)"""
+    import casadi as ca
+    J = ca.jacobian(expr, b.opti.x)
+    sp = J.sparsity()
+    cols = sp.get_col()
+    return cols[0] if len(cols) == 1 else None
+
+
+@register
+class C11(NlpCheck):
+    pid = "C11"
+    slices = ["free-time-nlp", "horizon-symbols-in-signals-localized", "restriction-to-fixed-time", "start-value-is-guess"]
+    tags = None
+    whole = True
+    want_f = True
+    profiles = [
+        ("free-time-nlp",
+         {'methods': ALLM + [('ss', 'euler')], 'grids': ALLGRIDS, 'horizon': ['freeT', 'freet0', 'freeboth', 'freeT'],
+          'obj_kinds': ['at_tf', 'integral', 'int_control'], 'ncons': (0, 2), 'horizon_in_signals': 0.7,
+          'Ns': [1, 2, 3, 4], 'Ms': [1, 2, 3], 'degrees': [1, 2, 3]}, 40, 500),
+        ("horizon-symbols-in-signals-localized",
+         {'methods': ALLM, 'grids': ['uniform_locT0', 'geometric_locT0', 'uniform_locboth', 'uniform_locT', 'free'], 'horizon': ['freet0', 'freeboth', 'freeT'],
+          'obj_kinds': ['at_tf', 'sum', 'sum_plus', 'int_control'], 'ncons': (1, 2), 'con_grids': ['control', 'integrator'], 'horizon_in_signals': 1.0,
+          'Ns': [2, 3, 4], 'Ms': [1, 2], 'degrees': [1, 2]}, 25, 300),
+    ]
+
+    def explanation(self):
+        return ("theorems: objective, dynamic rows, declared-constraint rows, grid and finalize rows of the model do not depend on whether "
+                "T/t0 are declared free — only on their values at the point; exactly one extra row T>=0 for free T; ocp.T/ocp.t0 in every "
+                "environment are the point's values. correspondence: free-time NLP vs model; real rockit twice: free-time problem at T=c "
+                "vs fixed-time problem with the number c (rows equal up to T>=0 and min/max rows that are constants when T is fixed); "
+                "starting value of T/t0 equals the FreeTime guess")
+
+    def correspondence(self):
+        NlpCheck.correspondence(self)
+        self.twin_slice()
+
+    def twin_slice(self):
+        import casadi as ca
+        n = 12 if self.tier == 'quick' else 150
+        prof = {'methods': ALLM, 'grids': FIXED_GRIDS + ['uniform_locT', 'free', 'uniform_locT0'], 'horizon': ['freeT', 'freet0', 'freeboth'],
+                'obj_kinds': ['at_tf', 'integral'], 'ncons': (0, 2), 'Ns': [1, 2, 3], 'Ms': [1, 2], 'degrees': [1, 2, 3]}
+        for _ in range(n):
+            dA = G.gen_case(self.rng, prof)
+            try:
+                bA = B.build(dA)
+                xv, pv, fv = En.rand_point(self.rng, bA)
+                with B.quiet():
+                    iT = var_index_of(bA, bA.ocp.value(bA.ocp.T)) if dA['T'][0] == 'free' else None
+                    it0 = var_index_of(bA, bA.ocp.value(bA.ocp.t0)) if dA['t0'][0] == 'free' else None
+                if iT is not None:
+                    xv[iT] = abs(xv[iT])
+                phys = B.eval_phys(bA, xv, pv, fv)
+                cT, ct0 = phys['T'][0][0], phys['t0'][0][0]
+                # start values
+                with B.quiet():
+                    x0 = ca.DM(bA.opti.debug.value(bA.opti.x, bA.opti.initial())).full().flatten().tolist()
+                phys0 = B.eval_phys(bA, [Fr(v) for v in x0], pv, fv)
+                for key, val in (('T', phys0['T'][0][0]), ('t0', phys0['t0'][0][0])):
+                    if dA[key][0] == 'free' and val != dA[key][1]:
+                        self.slice_ok["start-value-is-guess"] = False
+                        self.violation("starting value of %s is %s, FreeTime guess %s" % (key, float(val), float(dA[key][1])), {"desc": dA}, {"kind": "free-start", "which": key})
+                        return
+                dB = copy.deepcopy(dA)
+                if dA['T'][0] == 'free':
+                    dB['T'] = ('num', cT)
+                if dA['t0'][0] == 'free':
+                    dB['t0'] = ('num', ct0)
+                bB = B.build(dB)
+                drop = sorted(i for i in (iT, it0) if i is not None)
+                xB = [v for i, v in enumerate(xv) if i not in drop]
+                if len(xB) != bB.nx_opti:
+                    self.slice_ok["restriction-to-fixed-time"] = False
+                    self.violation("free-time problem has %d decision variables, fixed-time one %d (+%d horizon variables expected)" % (bA.nx_opti, bB.nx_opti, len(drop)),
+                                   {"desc": dA}, {"kind": "free-twin", "what": "nx"})
+                    return
+                fA, gA, lA, uA = B.eval_nlp(bA, xv, pv)
+                fB, gB, lB, uB = B.eval_nlp(bB, xB, pv)
+            except ZeroDivisionError:
+                continue
+            except Exception as e:
+                self.slice_ok["restriction-to-fixed-time"] = False
+                self.violation("free/fixed-time twin raised %r" % (e,), {"desc": dA}, {"kind": "exception"})
+                return
+            self.record_case(dA, True, {"twin": "free vs fixed", "T": str(cT), "t0": str(ct0), "method": dA['method']})
+            self.count("free-fixed-twin")
+            if not close(fA[0], fB[0], max(fA[1], fB[1], 1.0)):
+                self.slice_ok["restriction-to-fixed-time"] = False
+                self.violation("objective of the free-time problem at T=%s is %s, of the fixed-time problem %s" % (cT, float(fA[0]), float(fB[0])),
+                               {"desc": dA, "x": xv, "p": pv}, {"kind": "free-twin", "what": "objective"})
+                return
+            aA = B.atoms_of_impl(gA, lA, uA)
+            aB = B.atoms_of_impl(gB, lB, uB)
+            umB, leftA, _ = Mo.match_atoms([("B", [v]) for v, _ in aB], [[(v, m)] for v, m in aA])
+            # expected leftovers: T >= 0 and min/max rows on interval lengths (constants of the fixed-time problem)
+            self.driver.send(Mo.desc_lines(dA)); self.driver.send(Mo.point_lines(dA, phys))
+            _, rows = Mo.parse_nlp(self.driver.run('nlp'))
+            expect = [("x", [a]) for t, at in rows if t == 'tpos' or t.startswith('grid minmax') for a in at]
+            self.driver.send(Mo.desc_lines(dB)); self.driver.send(Mo.point_lines(dB, phys))
+            _, rowsB = Mo.parse_nlp(self.driver.run('nlp'))
+            expB = [a for t, at in rowsB if t.startswith('grid minmax') for a in at]
+            for a in expB:      # rows that also exist in the fixed problem (variable interval lengths)
+                for j, (t, v) in enumerate(expect):
+                    if v[0] == a:
+                        del expect[j]
+                        break
+            um2, left2, _ = Mo.match_atoms(expect, [[aA[j]] for j in leftA])
+            if umB or um2 or left2:
+                self.slice_ok["restriction-to-fixed-time"] = False
+                self.violation("restricted to T=%s, t0=%s the free-time NLP is not the fixed-time NLP plus T>=0: %d fixed rows missing, %d expected extra rows missing, %d unexplained rows" %
+                               (cT, ct0, len(umB), len(um2), len(left2)), {"desc": dA, "x": xv, "p": pv}, {"kind": "free-twin", "what": "rows", "method": dA['method']['kind']})
+                return
